@@ -20,6 +20,11 @@ from cherab.core.model import (ExcitationLine, RecombinationLine, ThermalCXLine,
                                BeamCXLine, BeamEmissionLine, SingleRayAttenuator, GaussianLine, ZeemanTriplet,
                                StarkBroadenedLine, MultipletLineShape)
 
+from cherab.core.laser import Laser
+from cherab.core.model.laser import (UniformEnergyDensity, ConstantBivariateGaussian, TrivariateGaussian,
+                                     GaussianBeamAxisymmetric, ConstantSpectrum, GaussianSpectrum,
+                                     SeldenMatobaThomsonSpectrum)
+
 from .mockad import MockAD
 
 ELECTRON_MASS = 9.1093837015e-31
@@ -101,7 +106,39 @@ def make_bmodel(m):
 
 
 def make_attenuator(a):
-    return SingleRayAttenuator(step=a["step"], clamp_to_zero=a["clamp_to_zero"], clamp_sigma=a["clamp_sigma"])
+    att = SingleRayAttenuator(step=a["step"], clamp_to_zero=a["clamp_to_zero"], clamp_sigma=a["clamp_sigma"])
+    # The constructor squares clamp_sigma with a C multiplication, the setter with Python's pow(); the two can differ
+    # by one ulp, and the beam's bounding surface lies exactly on the clamp discontinuity, so an end-point sample can
+    # flip in/out (a 1e-5-level rounding artefact, not stale state).  Route every attenuator through the setter once
+    # (before it is attached) so live and fresh scenes hold the same bit pattern.
+    att.clamp_sigma = a["clamp_sigma"]
+    return att
+
+
+PROFILE_ATTRS = {
+    "uniform": ["energy_density", "laser_length", "laser_radius"],
+    "bivariate": ["pulse_energy", "pulse_length", "laser_radius", "laser_length", "stddev_x", "stddev_y"],
+    "trivariate": ["pulse_energy", "pulse_length", "mean_z", "laser_length", "laser_radius", "stddev_x", "stddev_y"],
+    "gbeam": ["pulse_energy", "pulse_length", "laser_length", "laser_radius", "waist_z", "stddev_waist", "laser_wavelength"],
+}
+SPECTRUM_ATTRS = {"constant": ["min_wavelength", "max_wavelength", "bins"],
+                  "gaussian": ["min_wavelength", "max_wavelength", "bins", "mean", "stddev"]}
+
+
+def make_profile(pr):
+    cls = {"uniform": UniformEnergyDensity, "bivariate": ConstantBivariateGaussian, "trivariate": TrivariateGaussian,
+           "gbeam": GaussianBeamAxisymmetric}[pr["kind"]]
+    kw = {a: pr[a] for a in PROFILE_ATTRS[pr["kind"]]}
+    return cls(polarization=Vector3D(*pr["pol"]), **kw)
+
+
+def make_spectrum(sp):
+    cls = {"constant": ConstantSpectrum, "gaussian": GaussianSpectrum}[sp["kind"]]
+    return cls(**{a: sp[a] for a in SPECTRUM_ATTRS[sp["kind"]]})
+
+
+def make_lmodel(m):
+    return SeldenMatobaThomsonSpectrum()
 
 
 class Scene:
@@ -143,6 +180,16 @@ def build(cfg):
         b.attenuator = make_attenuator(bc["attenuator"])
         b.integrator = NumericalIntegrator(step=bc["integrator_step"])
         s.beam = b
+    s.laser = None
+    lc = cfg.get("laser")
+    if lc is not None:
+        parent = s.world if lc["parent"] == "world" else s.node
+        l = Laser(parent=parent, transform=T(lc["transform"]))
+        l.laser_spectrum = make_spectrum(lc["spectrum"])
+        l.plasma = p
+        l.laser_profile = make_profile(lc["profile"])
+        l.importance = lc["importance"]
+        s.laser = l
     # models last
     s.pmodels = [make_pmodel(m) for m in pc["models"]]
     if s.pmodels:
@@ -151,6 +198,12 @@ def build(cfg):
         s.bmodels = [make_bmodel(m) for m in bc["models"]]
         if s.bmodels:
             s.beam.models = s.bmodels
+    if s.laser is not None:
+        s.lmodels = [make_lmodel(m) for m in lc["models"]]
+        if s.lmodels:
+            s.laser.models = s.lmodels
+        # the repository's own suite sets the laser integrator after the models
+        s.laser.integrator = NumericalIntegrator(step=lc["integrator_step"])
     return s
 
 
@@ -255,6 +308,28 @@ def apply(s, cfg, op):
         new = dict(m, el=op["el"], q=op["q"], tr=op["tr"])
         s.bmodels[i].line = Line(species_obj(op["el"]), op["q"], tuple(op["tr"]))
         bc["models"][i] = new
+    elif k == "l_transform":
+        s.laser.transform = T(op["t"]); cfg["laser"]["transform"] = op["t"]
+    elif k == "l_parent":
+        s.laser.parent = s.world if op["to"] == "world" else s.node; cfg["laser"]["parent"] = op["to"]
+    elif k == "l_importance":
+        s.laser.importance = op["v"]; cfg["laser"]["importance"] = op["v"]
+    elif k == "l_integrator":
+        cfg["laser"]["integrator_step"] = op["step"]; s.laser.integrator = NumericalIntegrator(step=op["step"])
+    elif k == "l_integrator_step":
+        cfg["laser"]["integrator_step"] = op["step"]; s.laser.integrator.step = op["step"]
+    elif k == "l_spectrum":
+        s.laser.laser_spectrum = make_spectrum(op["sp"]); cfg["laser"]["spectrum"] = dict(op["sp"])
+    elif k == "l_profile":
+        s.laser.laser_profile = make_profile(op["pr"]); cfg["laser"]["profile"] = dict(op["pr"])
+    elif k == "l_models_set":
+        s.lmodels = [make_lmodel(m) for m in op["list"]]; s.laser.models = s.lmodels; cfg["laser"]["models"] = list(op["list"])
+    elif k == "l_plasma":
+        s.laser.plasma = p
+    elif k == "lp_set":
+        cfg["laser"]["profile"][op["attr"]] = op["v"]; setattr(s.laser.laser_profile, op["attr"], op["v"])
+    elif k == "ls_set":
+        cfg["laser"]["spectrum"][op["attr"]] = op["v"]; setattr(s.laser.laser_spectrum, op["attr"], op["v"])
     else:
         raise ValueError("unknown op %r" % k)
 
